@@ -75,6 +75,14 @@ def plan(tier):
                              "column_spill(%d, %d, %d, %s);" % (base, span, classes[cname], "true" if fl else "false"),
                              {"state": "Column::Int(Dense)", "base": base, "span": span, "written_row": cname,
                               "value_type": "Float" if fl else "Boolean"}, "column_spill")
+    for base in bases:
+        for span in spans:
+            bn = "big" if base > 100 else str(base)
+            emit("c30_foreach_b%s_s%d" % (bn, span), span + 4, "dense_for_each(%d, %d);" % (base, span),
+                 {"state": "Dense", "base": base, "span": span, "op": "for_each (walked by the type spill)"}, "for_each")
+    for gap in ((1, 70) if tier == "quick" else (1, 2, 64, 65, 70)):
+        emit("c30_grow_words_gap%d" % gap, 64 + gap + 70 + 8, "dense_grow_words(%d);" % gap,
+             {"state": "Dense, 64 packed rows (one full bitmap word)", "written_row": "63+%d" % gap}, "grow_words")
     sparse = [([], 5), ([5], 5), ([5], 9), ([5, 6], 7), ([5, 6, 7], 8), ([5, 6, 7], 6), ([5, 6, 9], 1 << 50), ([10, 11, 12], 9)]
     if tier != "quick":
         sparse += [([5, 7, 9], 11), ([5, 6, 7], 4), ([0, 1, 2], 3)]
@@ -98,7 +106,7 @@ def plan(tier):
         "fmt stubbed; drop glue skipped",
     ]
     p.bound = "Dense: base in %s, span in %s, every position class of the written row; Sparse: <= 3 entries; one step" % (list(bases), list(spans))
-    p.not_covered = ("spans above 3 (incl. the 64-slot word boundary), String columns, ColumnStore key index and clear_row, "
+    p.not_covered = ("spans above 3 except the packed 64-row growth shapes, String columns, ColumnStore key index and clear_row, "
                      "the real 1024-entry promotion threshold, FxHashMap itself")
     p.per_harness_timeout = 400 if tier == "quick" else 1500
     p.total_timeout = 1700 if tier == "quick" else 7000
